@@ -31,6 +31,8 @@ pub struct Ev {
   /// enter | exit | inside | free
   pub kind: &'static str,
   pub name: String,
+  /// what the `on_point` callback captured at this event (e.g. the manifest just published)
+  pub data: Option<Value>,
 }
 
 impl Ev {
@@ -129,9 +131,15 @@ struct State {
 pub struct Sched {
   st: Mutex<State>,
   cv: Condvar,
-  /// which points pause (others are only recorded)
-  pauses: Box<dyn Fn(&str, &str) -> bool + Send + Sync>,
+  /// which points pause (thread, kind, name); others are only recorded
+  pauses: Pauses,
+  /// called on the reporting thread (thread-local id cleared, so nested library calls are not
+  /// scheduled) before the event is recorded
+  on_point: Option<OnPoint>,
 }
+
+pub type Pauses = Box<dyn Fn(usize, &str, &str) -> bool + Send + Sync>;
+pub type OnPoint = Box<dyn Fn(usize, &str, &str) -> Option<Value> + Send + Sync>;
 
 /// model kind of an H2 event
 pub fn classify(kind: &str, name: &str) -> &'static str {
@@ -151,16 +159,19 @@ pub fn classify(kind: &str, name: &str) -> &'static str {
 impl Sched {
   /// called on a worker thread: record the event, pause if it is a pause point
   pub fn arrive(&self, tid: usize, kind: &'static str, name: &str) {
-    let mut g = self.st.lock().unwrap();
-    g.trace.push(Ev { thread: tid, kind, name: name.to_string() });
-    match kind {
-      "enter" => g.holder = Some(tid),
-      "exit" => {
-        if g.holder == Some(tid) {
-          g.holder = None
-        }
+    let data = match &self.on_point {
+      Some(f) => {
+        TID.with(|t| t.set(None));
+        let d = f(tid, kind, name);
+        TID.with(|t| t.set(Some(tid)));
+        d
       }
-      _ => {}
+      None => None,
+    };
+    let mut g = self.st.lock().unwrap();
+    g.trace.push(Ev { thread: tid, kind, name: name.to_string(), data });
+    if kind == "enter" {
+      g.holder = Some(tid);
     }
     g.last_point[tid] = name.to_string();
     if kind == "enter" {
@@ -169,13 +180,17 @@ impl Sched {
     if name == "reader.after_manifest_copy" {
       g.wants_manifest[tid] = false;
     }
-    if !(self.pauses)(kind, name) {
-      return;
+    if (self.pauses)(tid, kind, name) {
+      g.status[tid] = Status::Paused;
+      self.cv.notify_all();
+      while g.status[tid] == Status::Paused {
+        g = self.cv.wait(g).unwrap();
+      }
     }
-    g.status[tid] = Status::Paused;
-    self.cv.notify_all();
-    while g.status[tid] == Status::Paused {
-      g = self.cv.wait(g).unwrap();
+    // the writer lock is released only after the thread continues past its `exit` report
+    if kind == "exit" && g.holder == Some(tid) {
+      g.holder = None;
+      self.cv.notify_all();
     }
   }
 
@@ -208,7 +223,7 @@ impl Ctx {
     let mut g = self.sched.st.lock().unwrap();
     g.wants_writer[self.tid] = false;
     g.wants_manifest[self.tid] = false;
-    g.trace.push(Ev { thread: self.tid, kind: "free", name: format!("call.end:{k}") });
+    g.trace.push(Ev { thread: self.tid, kind: "free", name: format!("call.end:{k}"), data: None });
   }
 }
 
@@ -221,6 +236,8 @@ pub struct RunOut {
   pub blocked_predicted: usize,
   /// a thread missed its deadline although nothing it needs was known to be held
   pub blocked_unpredicted: usize,
+  /// per thread: it was treated as blocked at least once
+  pub was_blocked: Vec<bool>,
   pub stuck: bool,
 }
 
@@ -242,7 +259,7 @@ impl Default for Timing {
 pub type Body = Box<dyn FnOnce(&Ctx) -> Vec<Value> + Send + 'static>;
 
 /// Run the bodies as threads of one index rooted at `root` under the controlled scheduler.
-pub fn run(root: &Path, mut strategy: Strategy, timing: Timing, pauses: Box<dyn Fn(&str, &str) -> bool + Send + Sync>, bodies: Vec<Body>) -> RunOut {
+pub fn run(root: &Path, mut strategy: Strategy, timing: Timing, pauses: Pauses, on_point: Option<OnPoint>, bodies: Vec<Body>) -> RunOut {
   let n = bodies.len();
   let start = Instant::now();
   let sched = Arc::new(Sched {
@@ -256,6 +273,7 @@ pub fn run(root: &Path, mut strategy: Strategy, timing: Timing, pauses: Box<dyn 
     }),
     cv: Condvar::new(),
     pauses,
+    on_point,
   });
   {
     let s2 = sched.clone();
@@ -288,25 +306,49 @@ pub fn run(root: &Path, mut strategy: Strategy, timing: Timing, pauses: Box<dyn 
   let mut blocked_unpredicted = 0usize;
   let mut stuck = false;
   let mut last: Option<usize> = None;
+  let mut was_blocked = vec![false; n];
+  let mut cause_gone_at: Vec<Option<Instant>> = vec![None; n];
+  let mut gave_up = vec![false; n];
   let mut g = sched.st.lock().unwrap();
   loop {
-    // 1. wait until every running thread has arrived or is treated as blocked
+    // 1. wait until every running thread has arrived or is treated as blocked; a blocked thread
+    //    whose lock is no longer held is waited for again (it is about to arrive)
     loop {
       let now = Instant::now();
       let mut next_deadline: Option<Instant> = None;
       for t in 0..n {
-        if let Status::Running { since, predicted, blocked: false } = g.status[t] {
-          let dl = since + if predicted { timing.predicted } else { timing.other };
-          if now >= dl {
-            g.status[t] = Status::Running { since, predicted, blocked: true };
-            if predicted {
-              blocked_predicted += 1;
+        match g.status[t] {
+          Status::Running { since, predicted, blocked: false } => {
+            let dl = since + if predicted { timing.predicted } else { timing.other };
+            if now >= dl {
+              g.status[t] = Status::Running { since, predicted, blocked: true };
+              was_blocked[t] = true;
+              cause_gone_at[t] = None;
+              gave_up[t] = false;
+              if predicted {
+                blocked_predicted += 1;
+              } else {
+                blocked_unpredicted += 1;
+              }
             } else {
-              blocked_unpredicted += 1;
+              next_deadline = Some(next_deadline.map_or(dl, |d: Instant| d.min(dl)));
             }
-          } else {
-            next_deadline = Some(next_deadline.map_or(dl, |d: Instant| d.min(dl)));
           }
+          Status::Running { blocked: true, .. } if !gave_up[t] => {
+            if cause_holds(&g, t, n) {
+              cause_gone_at[t] = None;
+            } else {
+              let t0 = *cause_gone_at[t].get_or_insert(now);
+              let dl = t0 + timing.other;
+              if now >= dl {
+                gave_up[t] = true;
+                blocked_unpredicted += 1;
+              } else {
+                next_deadline = Some(next_deadline.map_or(dl, |d: Instant| d.min(dl)));
+              }
+            }
+          }
+          _ => {}
         }
       }
       match next_deadline {
@@ -344,8 +386,7 @@ pub fn run(root: &Path, mut strategy: Strategy, timing: Timing, pauses: Box<dyn 
     let t = strategy.pick(&paused, steps, last, n);
     steps += 1;
     last = Some(t);
-    let compactor_holds_manifest = (0..n).any(|u| u != t && g.last_point[u] == "compact.after_segment" && g.status[u] != Status::Done);
-    let predicted = (g.wants_writer[t] && g.holder.is_some() && g.holder != Some(t)) || (g.wants_manifest[t] && compactor_holds_manifest);
+    let predicted = cause_holds(&g, t, n);
     g.status[t] = Status::Running { since: Instant::now(), predicted, blocked: false };
     sched.cv.notify_all();
   }
@@ -358,7 +399,14 @@ pub fn run(root: &Path, mut strategy: Strategy, timing: Timing, pauses: Box<dyn 
   }
   verif::uninstall_points(root);
   let results = results.lock().unwrap().clone();
-  RunOut { trace, results, steps, blocked_predicted, blocked_unpredicted, stuck }
+  RunOut { trace, results, steps, blocked_predicted, blocked_unpredicted, was_blocked, stuck }
+}
+
+/// the lock thread `t` needs next is known to be held by another thread: the writer lock by the
+/// thread inside a section, or the manifest lock by a compaction paused at `compact.after_segment`
+fn cause_holds(g: &State, t: usize, n: usize) -> bool {
+  let compactor_holds_manifest = (0..n).any(|u| u != t && g.last_point[u] == "compact.after_segment" && g.status[u] != Status::Done);
+  (g.wants_writer[t] && g.holder.is_some() && g.holder != Some(t)) || (g.wants_manifest[t] && compactor_holds_manifest)
 }
 
 /// `(thread, k)` of the calls in the order of their `enter` events (k-th enter of a thread =
